@@ -1,5 +1,21 @@
 (* C04 — property theorems only: each closed by [exact], each followed by Print Assumptions. *)
-From Dastard Require Import C04.Base C04.Model C04.Spec C04.Proofs.
+From Dastard Require Import C04.Base C04.Model C04.Spec C04.Proofs C04.Glue.
+
+(* ---------- every history of the model passes the observable checker (uninterrupted deliveries) ---------- *)
+(* For every geometry, NSAMP, dropped-frame oracle and every sequence of reads (any chunking) and mix requests:
+   what the mirror of reader + getNextBlock + distributeData + MixRetardFb produces is accepted by C04_check
+   (which demands nothing when the delivery is not well-formed).  So on a well-formed uninterrupted delivery:
+   every frame's words appear exactly once, in frame order, in the two channels of their row/column; the
+   feedback is delayed, cleared, mixed and saturated as specified; the trigger counts are exactly the rising edges;
+   frame numbers are consecutive; exactly the delivered frames' bytes are released; fewer than 3 frames stay
+   behind after every read; nothing crashes.  Together with "implementation = model" on the generated cases this is
+   what makes a rejected implementation output a real violation. *)
+Theorem lancero_model_passes_check :
+  forall est g nsamp ops,
+    C04_check {| c_g := g; c_nsamp := nsamp; c_gap := None |}
+              (combine ops (run est true g nsamp (init_state g) ops)) = true.
+Proof. exact model_passes_check_proof. Qed.
+Print Assumptions lancero_model_passes_check.
 
 (* ---------- the reader goroutine is exact on every chunking of an uninterrupted delivery ---------- *)
 (* For every geometry (ncols >= 1, nrows >= 2), every frame content and every way of chopping the byte
